@@ -95,9 +95,23 @@ type machine struct {
 
 func (m *machine) define(local int) {
 	g := m.hosted[m.d.Int(0, len(m.hosted)-1, "msg")]
+	unknown := m.d.Int(0, 7, "unknownmsg") == 0
+	if unknown {
+		// a message number the profile does not know (its records are
+		// skipped), on a local type that may have held a known message
+		pool := gen.UnknownMsgPool()
+		g = pool[m.d.Int(0, len(pool)-1, "unkg")]
+		m.labels["definition-of-an-unknown-message"]++
+	}
 	def := fitmodel.Rec{IsDef: true, Local: byte(local), Global: g, BigEndian: m.d.Bool("be")}
 	mi := prof.Table().Msgs[g]
 	nums := prof.FieldNums(g)
+	if unknown {
+		nums = nil
+		for k := m.d.Int(0, 3, "nunkf"); k > 0; k-- {
+			def.Fields = append(def.Fields, fitmodel.FieldDef{Num: byte(len(def.Fields) + 1), Size: byte(m.d.Int(1, 4, "unkfsize")), Base: 0x0D})
+		}
+	}
 	if len(nums) > 0 {
 		nf := m.d.Int(1, 5, "nf")
 		start := m.d.Int(0, len(nums)-1, "fs")
